@@ -230,3 +230,17 @@ func VMStream(res *Result, d *Driver, c *Compiled, key string, mk func() map[str
 	}
 	return nil
 }
+
+// VMVerifyProgLine builds the `verifyprog` driver line (whole-program verifier, Tengo.Model.VM.verifyProgram):
+// only the shape of the constant pool matters, value constants travel as `(v u)`.
+func VMVerifyProgLine(bc *tengo.Bytecode, globalsSize int) string {
+	consts := make([]string, len(bc.Constants))
+	for i, k := range bc.Constants {
+		if f, ok := k.(*tengo.CompiledFunction); ok {
+			consts[i] = vmFnSexp(f)
+		} else {
+			consts[i] = "(v u)"
+		}
+	}
+	return L("verifyprog", N(globalsSize), "("+strings.Join(consts, " ")+")", vmFnSexp(bc.MainFunction))
+}
